@@ -154,7 +154,7 @@ class NestStream(Stream):
     parallel = True
 
     def cases(self, ctx):
-        n = ctx.scale(2000, 30000)
+        n = ctx.scale(2000, 20000)
         rng = ctx.rng_for("nest")
         return [scopegen.gen_program(rng.fork(f"p{i}")) for i in range(n)]
 
@@ -314,7 +314,7 @@ class PathRandomStream(Stream):
     def cases(self, ctx):
         rng = ctx.rng_for("paths")
         out = []
-        for i in range(ctx.scale(1000, 15000)):
+        for i in range(ctx.scale(1000, 10000)):
             g = scopegen.G(rng.fork(f"d{i}"))
             data = {"a": g.data(3), "b": g.data(2), "c": g.data(1)}
             reads = []
